@@ -313,7 +313,7 @@ PROPS["C08"] = {
 }
 
 PROPS["C10"] = {
-    "modules": ["TaffyVerif.Props.C10"],
+    "modules": ["TaffyVerif.Props.C10", "TaffyVerif.Props.C10Tree"],
     "theorems": [
         "C10.flowLoop_is_flowTrace", "C10.block_layout_sets_are_flowTrace", "C10.trace_layout_size",
         "C10.stack_order_no_overlap", "C10.stack_order_no_overlap_layout",
@@ -321,6 +321,14 @@ PROPS["C10"] = {
         "C10.sibling_gap_is_collapsed_margin", "C10.collapsed_margin_is_max_plus_min",
         "C10.sibling_gap_through_empty_boxes", "C10.collapse_two_margins", "C10.sibling_gap_two_margins",
         "C10.block_collapse_sound", "C10.leaf_collapse_sound",
+        # tree-level specification (Spec/MarginCollapse.lean, from CSS 2.1 8.3.1) tied to the model's margin algebra, its
+        # one-level clauses tied to the theorems above, and non-vacuity on two concrete trees
+        "C10Tree.collapsed_eq_resolve_fold", "C10Tree.collapsed_append_eq_collapseWithSet", "C10Tree.toSet_append",
+        "C10Tree.collapsed_pair", "C10Tree.collapsed_nonneg",
+        "C10Tree.flow_first_child", "C10Tree.flow_pair_gap",
+        "C10Tree.model_sibling_gap_is_spec_gap", "C10Tree.model_gap_through_empty_boxes_is_spec_gap",
+        "C10Tree.tree1_good_ok", "C10Tree.tree1_summed_rejected", "C10Tree.tree1_summed_clauses",
+        "C10Tree.tree2_good_ok", "C10Tree.tree2_summed_rejected", "C10Tree.tree2_summed_clauses",
     ],
     "harness": "C10", "driver": "C10", "monitor": True, "extra_ties": [("EVAL", "EVAL")], "extra_tie_cases": 4000,
     "rule": "block containers with 1-5 children (empty boxes, leaves with Fixed/Wrap measure contexts, nested block / flex / grid "
@@ -332,7 +340,18 @@ PROPS["C10"] = {
             "the layouts it set and its LayoutOutput. The model must make the same queries in the same order and produce the same "
             "output and layouts bit for bit (-0.0 = +0.0). Fixed cases first: the witnesses of the three repaired defects "
             "(db358c3, a404d9d, 0961b7f) and all sign combinations with empty boxes in between. "
-            "Non-trivial = the invocation set at least two child layouts; distinct = distinct request/answer transcripts.",
+            "Non-trivial = the invocation set at least two child layouts; distinct = distinct request/answer transcripts. "
+            "Tree-level stream (harness/src/c10tree.rs, case indices from 1000000; histogram keys tree:*): whole trees of nested "
+            "display:block containers (depth <= 4, <= 4 children per node; leaves empty or with a fixed-size measure function, height "
+            "0 included; margins from {-20,-10,-8,-5,-2.5,0,2.5,5,7.5,10,12.5,15,20,30}; padding / border per side; height auto or "
+            "a length, min-height on childless boxes; some definite widths; display:none and absolute children sprinkled in), placed "
+            "as a root with definite width, a root under max-/min-content, or the only item of a flex row / grid container; laid out "
+            "by a fresh TaffyTree without rounding; one request per tree carrying the tree and every node's unrounded layout. The "
+            "monitor pass evaluates MarginCollapse.violations (Spec/MarginCollapse.lean: adjoining top / bottom margin sets by "
+            "recursion over the tree, collapsed value = max positive + min negative, clauses first-child, sibling-gap, through-pos, "
+            "through-height, stretch) on those layouts with exact rational arithmetic; any `bad c10-tree-<clause> node k` is a "
+            "concrete failing tree. Excluded where CSS 2.1 8.3.1 is not unequivocal: min-height > 0 on a box with in-flow children; "
+            "height:0 around in-flow children that all collapse through.",
     "trusted_base": [
         "model of src/compute/block.rs is hand-written (Model/Block.lean, all of compute_block_layout / compute_inner including the "
         "absolute and hidden passes); tied to the code by bit-exact comparison of every recorded invocation, with the child answers "
@@ -340,6 +359,10 @@ PROPS["C10"] = {
         "the cfg(taffy_verif) trace hook (src/verif_trace.rs + 4 add-only call sites in compute_cached_layout, "
         "TaffyView::compute_child_layout and TaffyView::set_unrounded_layout) records faithfully",
         "theorems are stated at Rat; the same definitions run at Float32 in the tie; no theorem relates f32 rounding to Rat",
+        "tree-level stream: Spec/MarginCollapse.lean is a hand-written reading of CSS 2.1 8.3.1 (independent of Model/Block.lean; "
+        "tied to it only by the C10Tree.* theorems about the collapsed value and the one-level clauses); the driver's conversion of "
+        "style tokens and f32 layouts to the specification's boxes (Drv/C10Tree.lean) is trusted; a measured content height of 0 is "
+        "read as 'contains no line box'",
     ],
     "assumptions": [
         "children are universally quantified as oracles (any answers); properties of the children's own algorithms are only "
@@ -355,11 +378,20 @@ PROPS["C10"] = {
                   "the gap between two siblings that are not collapsed through equals most-positive + most-negative over all adjoining "
                   "margins, also through any number of collapsed-through boxes in between (sibling_gap_is_collapsed_margin, "
                   "sibling_gap_through_empty_boxes), which for two plain margins is max / min / sum by sign (sibling_gap_two_margins); the "
-                  "block algorithm and the leaf flag are collapse-sound for every input (block_collapse_sound, leaf_collapse_sound).",
+                  "block algorithm and the leaf flag are collapse-sound for every input (block_collapse_sound, leaf_collapse_sound). "
+                  "Tree level: the specification's collapsed value of a list of adjoining margins is MarginSet.resolve of the list "
+                  "folded in with collapse_with_margin, and list union is collapse_with_set (C10Tree.collapsed_eq_resolve_fold, "
+                  "collapsed_append_eq_collapseWithSet); its first-child and sibling-gap clauses say what they should "
+                  "(flow_first_child, flow_pair_gap) and the model of block.rs satisfies the sibling clause whenever its margin sets are "
+                  "the folds of the specification's adjoining lists (model_sibling_gap_is_spec_gap, "
+                  "model_gap_through_empty_boxes_is_spec_gap); the specification accepts the CSS layouts of two concrete trees and "
+                  "rejects the layouts with summed margins (tree1_*, tree2_*). Whole trees are checked against the specification by "
+                  "evaluation on generated trees, not by a theorem about the whole-tree composition of the model.",
     "level_note": "Trusted: Lean kernel; hand-written model of block.rs validated by the correspondence run (Float32, bit-exact, query "
                   "order included); the trace hook; Lean Float32 = IEEE binary32. Axioms: propext, Classical.choice, Quot.sound.",
     "technique": "Lean 4 proofs over a free-monad model of block.rs (children as arbitrary oracles) + differential correspondence with "
-                 "trace replay against TaffyTree + property monitor on the implementation's layouts",
+                 "trace replay against TaffyTree + property monitor on the implementation's layouts + tree-level executable "
+                 "specification of CSS 2.1 margin collapsing evaluated on whole-tree layouts",
 }
 
 PROPS["C11"] = {
